@@ -716,9 +716,10 @@ func (client *Client) input() {
 					if codec == nil {
 						call.Error = strErr(ErrUnsupportedCodec.Error())
 					} else {
-						err = codec.Decode(data, call.Reply)
-						if err != nil {
-							call.Error = strErr(err.Error())
+						// a reply that does not fit this call's Reply fails this call only;
+						// it must not end the read loop (err is the loop variable)
+						if derr := codec.Decode(data, call.Reply); derr != nil {
+							call.Error = strErr(derr.Error())
 						}
 					}
 				}
